@@ -26,7 +26,7 @@ def run(ctx):
     ctx.rule('R13.2', 'Line.radialrange: the closed-form t is the critical point of |p0 + t d - z|^2; decision table = clamp / farther end', 1)
     ctx.rule('R13.3', 'Path.radialrange: arg-min / arg-max fold is correct on every weak ordering of three segments (values touched only through '
                       'comparisons) and appends the index of the same iteration', 1)
-    ctx.rule('R13.4', 'closest_point_in_path -> radialrange(pt)[0]; farthest_point_in_path -> radialrange(pt)[1]', 2)
+    ctx.rule('R13.4', 'closest_point_in_path -> radialrange(pt)[0]; farthest_point_in_path -> radialrange(pt)[1]; on concrete rational paths both return the global extremum with its segment index, for every segment order', 8)
     ob = lambda r: Obligation(ctx, r)
 
     # ---------------------------------------------------------------- R13.1
@@ -164,6 +164,7 @@ def run(ctx):
     ctx.exhaustive = True
 
     # ---------------------------------------------------------------- R13.4
+    _closest_farthest_semantics(ctx, mdl)
     for fn, slot in (('closest_point_in_path', 0), ('farthest_point_in_path', 1)):
         f = mdl.func('path.' + fn)
 
@@ -174,9 +175,82 @@ def run(ctx):
             got = {}
             it.ext_hooks['__rr__'] = lambda it2, a, k: got.update(arg=a[0]) or ('MIN', 'MAX')
             return it.call(it.closure_of('path.' + fn), [Z, p], {}), got
+        try:
+            explore(ctx.model, th4, {})
+        except Undecidable:
+            continue              # no plain delegation to path.radialrange(pt): decided by the concrete instances above
         ob('R13.4').run(f, '%s picks slot %d of radialrange(pt)' % (fn, slot), th4,
                         lambda v, slot=slot: (v[0] == ('MIN', 'MAX')[slot] and to_rat(v[1].get('arg', 0)).equals(Z),
                                               'returns %r for radialrange(%r)' % (v[0], v[1].get('arg'))))
+
+
+def _closest_farthest_semantics(ctx, mdl):
+    """closest_point_in_path / farthest_point_in_path on concrete three-segment paths (Pythagorean geometry: every distance is
+    rational) in all six segment orders and for query points inside / outside the segments' coordinate ranges: whatever route the
+    functions take (delegation, own loop, pruning), the answer is the global extremum with its segment index."""
+    geo = [((Fr(9, 2), Fr(-6)), (Fr(9, 2), Fr(6))),      # vertical, foot of the perpendicular inside: dmin 9/2 at t=1/2, ends 15/2
+           ((Fr(-3), Fr(4)), (Fr(3), Fr(4))),            # horizontal, dmin 4 at t=1/2, ends 5
+           ((Fr(8), Fr(6)), (Fr(8), Fr(15)))]            # foot outside: dmin 10 at t=0, dmax 17 at t=1
+
+    def dist2(p, q):
+        return (p[0] - q[0]) ** 2 + (p[1] - q[1]) ** 2
+
+    def extremes(seg, z):
+        (x0, y0), (x1, y1) = seg
+        dx, dy = x1 - x0, y1 - y0
+        t = (dx * (z[0] - x0) + dy * (z[1] - y0)) / (dx * dx + dy * dy)
+        cands = [(dist2((x0, y0), z), Fr(0)), (dist2((x1, y1), z), Fr(1))]
+        lo = list(cands)
+        if 0 < t < 1:
+            lo.append((dist2((x0 + t * dx, y0 + t * dy), z), t))
+        return min(lo), max(cands)
+
+    # rigid images of the one configuration (all distances stay rational): as is, translated, mirrored in the diagonal, point-reflected
+    images = [('as is', lambda p: p), ('translated', lambda p: (p[0] + 10, p[1] - 7)), ('x/y swapped', lambda p: (p[1], p[0])),
+              ('point-reflected', lambda p: (-p[0], -p[1]))]
+    base = geo
+    for fn, slot in (('closest_point_in_path', 0), ('farthest_point_in_path', 1)):
+        f = mdl.func('path.' + fn)
+        for iname, img in images:
+            z = img((Fr(0), Fr(0)))
+            geo = [(img(a), img(b)) for a, b in base]
+            bad = []
+            und = None
+            for order in itertools.permutations(range(3)):
+                segs = [geo[k] for k in order]
+                ex = [extremes(sg, z)[slot] for sg in segs]
+                best = (min if slot == 0 else max)(d for d, _ in ex)
+                winners = [k for k, (d, _) in enumerate(ex) if d == best]
+
+                def th(it, segs=segs, z=z, fn=fn):
+                    ls = [it.construct('path.Line', Rat.const(complex(a[0], a[1])), Rat.const(complex(b[0], b[1]))) for a, b in segs]
+                    return it.call(it.closure_of('path.' + fn), [Rat.const(complex(z[0], z[1])), it.construct('path.Path', *ls)], {})
+                try:
+                    paths = explore(ctx.model, th, {})
+                except Undecidable as e:
+                    und = str(e)
+                    break
+                for pth in paths:
+                    if pth.raised is not None:
+                        bad.append('order %s: raises %s' % (order, pth.raised.exc_name))
+                        continue
+                    v = pth.value
+                    ok = False
+                    if isinstance(v, tuple) and len(v) == 3:
+                        from svtstatic.values import concrete_number
+                        d, t, k = concrete_number(v[0]), concrete_number(v[1]), concrete_number(v[2])
+                        k = int(k) if k is not None and k == int(k) else None
+                        ok = d is not None and k in winners and abs(float(d) ** 2 - float(best)) < 1e-9 and t is not None and \
+                            abs(float(t) - float(ex[k][1])) < 1e-9
+                    if not ok:
+                        bad.append('segments %s, query %s: returns %s, the %s point lies on segment %s at distance^2 %s' % (
+                            [tuple(map(str, a + b)) for a, b in segs], tuple(map(str, z)), short(repr(v), 60), 'closest' if slot == 0 else 'farthest',
+                            winners, best))
+            label = '%s over the 6 orders of three concrete lines (%s)' % (fn, iname)
+            if und:
+                ctx.undecided('R13.4', f.qualname, label, und, where=where(f))
+            else:
+                ctx.record('R13.4', f.qualname, label, not bad, detail='; '.join(bad[:2]), where=where(f))
 
 
 def concrete_number_eq(a, b):
